@@ -426,6 +426,74 @@ def judge(ctx, case):
         ctx.count('cases_writing_protected_spelling')
 
 
+class ReadLog(dict):
+    """cache that records which BYTE-STRING keys are consulted (read or
+    tested for presence): those are the entries a script can write"""
+
+    def __init__(self, *a, **kw):
+        super().__init__(*a, **kw)
+        self.consulted = []
+
+    def _note(self, k):
+        if isinstance(k, (bytes, bytearray)):
+            self.consulted.append(bytes(k))
+
+    def __getitem__(self, k):
+        self._note(k)
+        return super().__getitem__(k)
+
+    def get(self, k, d=None):
+        self._note(k)
+        return super().get(k, d)
+
+    def __contains__(self, k):
+        self._note(k)
+        return super().__contains__(k)
+
+
+def judge_message_sources(ctx, rng):
+    """the message a signature instruction works on comes from the
+    embedder's str-keyed sigfields alone: while GET_MESSAGE / SIGN /
+    CHECK_SIG / CHECK_SIG_VERIFY / CHECK_MULTISIG run, no byte-string keyed
+    (script-writable) entry is consulted - whatever it is called"""
+    functions = env.mods()[0]
+    from ..ref import sigmsg
+    seed = bytes(rng.getrandbits(8) for _ in range(32))
+    pk = sigmsg.pubkey(seed)
+    f = rng.choice((0, 0, 1, 0x82, 0x10))
+    fields = {f'sigfield{k}': bytes(rng.getrandbits(8) for _ in range(6))
+              for k in rng.sample(range(1, 9), 4)}
+    sig = sigmsg.sign(seed, sigmsg.message(fields, f)) \
+        + (bytes([f]) if f else b'')
+    P = isa.push
+    for name, prog in (
+            ('GET_MESSAGE', isa.op('GET_MESSAGE') + bytes([f])),
+            ('SIGN', P(seed) + isa.op('SIGN') + bytes([f])),
+            ('CHECK_SIG', P(sig) + P(pk) + isa.op('CHECK_SIG') + bytes([f])),
+            ('CHECK_SIG_VERIFY', P(sig) + P(pk) + isa.op('CHECK_SIG_VERIFY')
+             + bytes([f])),
+            ('CHECK_MULTISIG', P(sig) + P(pk) + isa.op('CHECK_MULTISIG')
+             + bytes([f, 1, 1]))):
+        ctx.evaluated()
+        ctx.count('message_source_probes')
+        cache = ReadLog({'timestamp': env.NOW0, **fields})
+        tape = functions.Tape(prog)
+        tape.plugins = {k: list(v) for k, v in functions._plugins.items()}
+        try:
+            functions.run_tape(tape, functions.Stack(), cache)
+        except BaseException:
+            pass
+        if cache.consulted:
+            ctx.violation('signature-instruction-consults-script-writable-key',
+                          f'{name} (flag {f:#04x}) consulted the byte-string '
+                          f'keyed entries {sorted(set(cache.consulted))!r}: a '
+                          'script can write those, so a witness can steer the '
+                          'message a signature is checked against',
+                          {'kind': 'message-source', 'instr': name, 'f': f},
+                          'str keys only', sorted(set(cache.consulted)))
+            return
+
+
 def run_shard(spec, ctx):
     i, of = spec['shard'], spec['of']
     n = NCASE[ctx.tier] // of
@@ -434,6 +502,8 @@ def run_shard(spec, ctx):
         judge(ctx, case)
         if j % 400 == 0 and len(case['script']) < 100:
             ctx.sample(case)
+    for j in range(20):
+        judge_message_sources(ctx, ctx.rng(('msgsrc', j)))
     ctx.count('recording_contract_calls', Recorder.calls)
 
 
@@ -451,4 +521,8 @@ def finalize(agg, tier):
 
 
 def replay(case, ctx):
+    if case.get('kind') == 'message-source':
+        for j in range(20):
+            judge_message_sources(ctx, ctx.rng(('msgsrc', j)))
+        return
     judge(ctx, case)
